@@ -532,22 +532,44 @@ ITER_FNS = ("iter", "keys", "values", "into_iter", "drain", "iter_mut", "values_
 ADAPTERS = ("map", "filter", "filter_map", "flat_map", "copied", "cloned", "enumerate", "into_iter", "chain", "flatten", "rev", "peekable", "by_ref", "inspect", "zip", "skip", "take")
 INSENSITIVE_TERMINALS = ("any", "all", "count", "min", "max", "min_by", "max_by", "min_by_key", "max_by_key", "len", "is_empty", "contains", "contains_key")
 
-# (function, iteration) -> reason the result does not depend on the iteration order; confirmed by reading the pinned tree
+# (function, collection iterated) -> reason the result does not depend on the iteration order; confirmed by reading the
+# pinned tree.  Keyed by the enclosing function (closures count for the function they are written in) and the type of
+# the collection, not by the iteration idiom, so that rewriting a `for` loop as an iterator chain keeps the entry.
+_CELLS = "HashMap<i32, HashMap<i32, Cell>>"
+_ROW = "HashMap<i32, Cell>"
+_LINKS = "HashMap<(i32, i32), Link>"
 HASH_EXCEPT = {
-    ("Model::get_parsed_defined_name", "into_iter#1"): "first match over keys that are unique: (scope, name.to_lowercase()) is how entries are inserted, so at most one key matches the case-insensitive test",
-    ("Parser::parse_primary", "keys#1"): "existence test: the value returned is the identifier typed by the user, not the matching table key",
-    ("Model::reset_dynamic_array_spills", "into_iter#1"): "collects the dynamic anchors; each anchor's reset touches only its own block (spill blocks of one sheet are disjoint), so the visiting order is immaterial",
-    ("Model::reset_dynamic_array_spills", "into_iter#2"): "inner loop of the same collection (cells of one row)",
-    ("Worksheet::column_cell_references", "keys#1"): "collects the cells of one column for callers that treat every row independently (move of a column rebuilds each cell on its own)",
-    ("Worksheet::column_cell_references", "into_iter#2"): "the same loop (IntoIterator on the keys iterator)",
-    ("Worksheet::dimension", "into_iter#1"): "min/max accumulation over rows",
-    ("Worksheet::dimension", "keys#2"): "min/max accumulation over columns",
-    ("Model::get_columns_for_row", "keys#1"): "collected into a Vec that is sorted before it is returned (or returned for callers that move each cell independently)",
-    ("Model::insert_columns", "keys#1"): "rows are visited in hash order but each row is shifted on its own (columns inside a row are taken in "
-                                         "descending order by get_columns_for_row); no row's result depends on another row",
-    ("Model::move_column_unchecked", "iter#1"): "links of the moved column are collected and re-inserted into a map keyed by position",
-    ("Model::move_row_unchecked", "iter#1"): "links of the moved row are collected and re-inserted into a map keyed by position",
+    ("Model::get_parsed_defined_name", "HashMap<(Option<u32>, String), ParsedDefinedName>"):
+        "first match over keys that are unique: (scope, name.to_lowercase()) is how entries are inserted, so at most one key matches the case-insensitive test",
+    ("Parser::parse_primary", "HashMap<String, Table>"): "existence test: the value returned is the identifier typed by the user, not the matching table key",
+    ("Model::reset_dynamic_array_spills", _CELLS): "collects the dynamic anchors; each anchor's reset touches only its own block (spill blocks of one sheet are disjoint), so the visiting order is immaterial",
+    ("Model::reset_dynamic_array_spills", _ROW): "inner loop of the same collection (cells of one row)",
+    ("Worksheet::column_cell_references", _CELLS): "collects the cells of one column for callers that treat every row independently (move of a column rebuilds each cell on its own)",
+    ("Worksheet::dimension", _CELLS): "min/max accumulation over rows",
+    ("Worksheet::dimension", _ROW): "min/max accumulation over columns",
+    ("Model::insert_columns", _CELLS): "rows are visited in hash order but each row is shifted on its own (columns inside a row are taken in "
+                                       "descending order by get_columns_for_row); no row's result depends on another row",
+    ("Model::move_column_unchecked", _LINKS): "links of the moved column are collected and re-inserted into a map keyed by position",
+    ("Model::move_row_unchecked", _LINKS): "links of the moved row are collected and re-inserted into a map keyed by position",
 }
+
+
+def _short_coll(ty):
+    """`&std::collections::HashMap<i32, ironcalc_base::types::Cell>` -> `HashMap<i32, Cell>`; the iterator structs of a
+    map (`Keys<'_, K, V>` ...) are named after the map they walk."""
+    import re
+    t = ty.replace("&mut ", "").replace("&", "")
+    t = re.sub(r"(?:[A-Za-z_][A-Za-z_0-9]*::)+", "", t)
+    t = re.sub(r"'[a-z_]+,? ?", "", t)
+    t = re.sub(r"\b(Keys|Values|ValuesMut|Iter|IterMut|IntoIter|IntoKeys|IntoValues|Drain)<", "HashMap<", t)
+    return t
+
+
+def _fn_short(F, p):
+    h = F.heads[p]
+    root = h.get("root") or p
+    q = F.body(root).qname
+    return "::".join(q.split("::")[-2:]), root
 
 
 def hash_order(ck, F):
@@ -561,6 +583,7 @@ def hash_order(ck, F):
             reach |= P.reachable(r)
     ck.ob(R, "reachable-set", len(reach) >= 1000, "only %d bodies reachable from the roots (anchors lost?)" % len(reach))
     n = 0
+    counters = {}
     for p in sorted(reach):
         h = F.heads[p]
         if "/functions/" in h["file"]:
@@ -569,8 +592,7 @@ def hash_order(ck, F):
         if not any("HashMap" in c or "HashSet" in c or "hash::map" in c or "hash::set" in c for c in cs):
             continue
         b = F.body(p)
-        qn = "::".join(b.qname.split("::")[-2:]) if "{closure" not in b.qname else "::".join(b.qname.split("::")[-3:])
-        k = 0
+        qn, root = _fn_short(F, p)
         for bi, t in b.calls():
             q = b.callee_q(t) or ""
             last = q.rsplit("::", 1)[-1]
@@ -583,25 +605,65 @@ def hash_order(ck, F):
                      ("IntoIterator" in q and ("collections::HashMap" in ty or "collections::HashSet" in ty or "hash::map::" in ty or "hash::set::" in ty)))
             if not hashy:
                 continue
-            k += 1
             n += 1
-            site = "%s#%d" % (last, k)
+            coll = _short_coll(ty)
+            k = counters[(qn, coll)] = counters.get((qn, coll), 0) + 1
+            site = "%s#%d" % (coll, k)
             verdict, why = _classify_iteration(b, bi, t)
+            if verdict is None and p != root and "escapes" in why:
+                # the iterator is what a closure returns: it is one stage of the chain the enclosing function builds
+                # (flat_map(|..| row.keys()..)); classify the chain from the adapter the closure is handed to
+                verdict, why = _classify_through_parent(F, b, root)
+            rb = F.body(root)
             if verdict is None:
                 # idiom D: a pure predicate - the enclosing function writes nothing and returns only constant booleans,
                 # so what it computes is an exists/forall over the collection
-                root = F.heads[p].get("root") or p
-                rb = F.body(root)
                 if _pure_predicate(F, P, rb):
                     verdict, why = True, "pure predicate (%s): constant boolean results, no writes" % rb.name
+            if verdict is None and _writes_nothing(F, P, root):
+                # idiom E: a read-only helper whose every caller is such a predicate
+                callers = {F.heads[c].get("root") or c for c in P.callers_of([root])}
+                callers.discard(root)
+                if callers and all(_pure_predicate(F, P, F.body(c)) for c in callers):
+                    verdict, why = True, "read-only helper used only by pure predicates (%s)" % ", ".join(sorted(F.body(c).name for c in callers))
             f, l = b.loc(bi)
-            if verdict is None and (qn, site) in HASH_EXCEPT:
-                ck.ob(R, "%s|%s" % (qn, site), True, HASH_EXCEPT[(qn, site)], nontrivial=False)
+            if verdict is None and (qn, coll) in HASH_EXCEPT:
+                ck.ob(R, "%s|%s" % (qn, site), True, HASH_EXCEPT[(qn, coll)], nontrivial=False)
                 continue
             ck.ob(R, "%s|%s" % (qn, site), verdict is True,
-                  "%s iterates a hash map/set (%s) and the result is consumed in iteration order (%s): values can depend on the hasher's order"
-                  % (qn, last, why), f, l, sample={"fn": qn, "site": site, "idiom": why})
+                  "%s iterates a hash map/set (%s over %s) and the result is consumed in iteration order (%s): values can depend on the hasher's order"
+                  % (qn, last, coll, why), f, l, sample={"fn": qn, "site": site, "idiom": why})
     ck.note("iteration_sites", n)
+
+
+def _writes_nothing(F, P, root):
+    if P.direct.get(root):
+        return False
+    for c in P.reachable(root):
+        if P.direct.get(c) and any(a.startswith("ironcalc_base::types::") for a, _ in P.direct[c]):
+            return False
+    return True
+
+
+def _classify_through_parent(F, cb, root, depth=0):
+    """The closure body `cb` returns an iterator over a hash collection.  Find, in the body it is written in, the
+    adapter call it is passed to and classify the chain from there."""
+    parent = F.heads[cb.path].get("parent") or root
+    rb = F.body(parent)
+    tag = "{closure@%s:%d:" % (cb.file, cb.line)
+    for bi, t in rb.calls():
+        for a in t["args"]:
+            pl = op_place(a)
+            if pl is None or not rb.locals[pl["l"]].startswith(tag):
+                continue
+            last = (rb.callee_q(t) or "").rsplit("::", 1)[-1]
+            if last not in ADAPTERS:
+                return None, "closure passed to %s" % last
+            v, why = _classify_iteration(rb, bi, t)
+            if v is None and "escapes" in why and parent != root and depth < 3:
+                return _classify_through_parent(F, rb, root, depth + 1)
+            return v, why
+    return None, "iterator escapes (stored or returned)"
 
 
 def _pure_predicate(F, P, rb):
